@@ -31,7 +31,7 @@ REMOVE3_STR = '-:'
 NUMBER_RE = re.compile(r'^n:(-?\d+(:?\.\d+)?(:?[eE][+\-]?\d+)?)(:? (.*))?$',
                        flags=re.MULTILINE)
 REF_RE = re.compile(r'^r:([a-zA-Z0-9_:\-.~]+)(:? (.*))?$',
-                    flags=re.MULTILINE)
+                    flags=re.DOTALL)
 DATE_RE = re.compile(r'^d:(\d{4})-(\d{2})-(\d{2})$', flags=re.MULTILINE)
 TIME_RE = re.compile(r'^h:(\d{2}):(\d{2})(:?:(\d{2}(:?\.\d+)?))?$',
                      flags=re.MULTILINE)
@@ -39,8 +39,8 @@ DATETIME_RE = re.compile(r'^t:(\d{4}-\d{2}-\d{2}T' \
                          r'\d{2}:\d{2}(:?:\d{2}(:?\.\d+)?)' \
                          r'(:?[zZ]|[+\-]\d+:?\d*))(:? ([A-Za-z\-+_0-9]+))?$',
                          flags=re.MULTILINE)
-URI_RE = re.compile(r'u:(.+)$', flags=re.MULTILINE)
-BIN_RE = re.compile(r'b:(.+)$', flags=re.MULTILINE)
+URI_RE = re.compile(r'u:(.*)$', flags=re.DOTALL)
+BIN_RE = re.compile(r'b:(.+)$', flags=re.DOTALL)
 COORD_RE = re.compile(r'c:(-?\d*\.?\d*),(-?\d*\.?\d*)$',
                       flags=re.MULTILINE)
 
@@ -149,7 +149,7 @@ def parse_embedded_scalar(scalar, version=LATEST_VER):
         if Version.nearest(version) < VER_3_0:
             raise ValueError('XStr is not supported in Haystack version %s' \
                              % version)
-        return XStr(*scalar[2:].split(':'))
+        return XStr(*scalar[2:].split(':', 1))
 
     # Is it a reference?
     match = REF_RE.match(scalar)
